@@ -45,6 +45,7 @@ type ProjectRunner struct {
 	logger            pclog.PcLogger
 	waitGroup         sync.WaitGroup
 	exitCode          int
+	exitCodeOnce      sync.Once
 	projectState      *types.ProjectState
 	mainProcess       string
 	mainProcessArgs   []string
@@ -216,8 +217,8 @@ func (p *ProjectRunner) onProcessEnd(exitCode int, procConf *types.ProcessConfig
 	if (exitCode != 0 && procConf.RestartPolicy.Restart == types.RestartPolicyExitOnFailure) ||
 		procConf.RestartPolicy.ExitOnEnd {
 		verifPointR(p, "exit_trigger", procConf.ReplicaName, exitCode)
+		p.exitCodeOnce.Do(func() { p.exitCode = exitCode })
 		_ = p.ShutDownProject()
-		p.exitCode = exitCode
 		verifPointR(p, "exit_code_set", p.exitCode)
 	}
 }
@@ -225,8 +226,8 @@ func (p *ProjectRunner) onProcessEnd(exitCode int, procConf *types.ProcessConfig
 func (p *ProjectRunner) onProcessSkipped(procConf *types.ProcessConfig) {
 	if procConf.RestartPolicy.ExitOnSkipped {
 		verifPointR(p, "exit_trigger", procConf.ReplicaName, 1)
+		p.exitCodeOnce.Do(func() { p.exitCode = 1 })
 		_ = p.ShutDownProject()
-		p.exitCode = 1
 		verifPointR(p, "exit_code_set", p.exitCode)
 	}
 }
